@@ -400,4 +400,29 @@ theorem laSets_zero_nil {G : Grammar} {fuel A : Nat} (hno : NoEoi G) {sets : Lis
       have hx' := ((hff.prods i p hp) x).2 hx
       exact evalPartsFrom_zero_nil _ [[]] (by intro y hy; simpa using hy) x hx'
 
+/-! ## without the density hypothesis: the tables denote the renamed grammar -/
+
+def renameSym (f : Nat → Nat) : Sym → Sym
+  | .t a => .t a
+  | .n B => .n (f B)
+
+/-- `G` with every non-terminal `A` replaced by `f A` -/
+def renameG (f : Nat → Nat) (G : Grammar) : Grammar :=
+  ⟨f G.start, G.prods.map fun r => ⟨f r.lhs, r.rhs.map (renameSym f)⟩⟩
+
+theorem stackSyms_map_genSym_general (G : Grammar) (ss : List Sym) :
+    stackSyms (ss.map (genSym G)) = ss.map (renameSym (ntIndex G)) := by
+  induction ss with
+  | nil => rfl
+  | cons s ss ih => cases s <;> simp [genSym, renameSym, ih]
+
+theorem genTables_gOf {G : Grammar} {K fuel : Nat} {T : LLTables} (h : genTables G K fuel = .ok T) :
+    gOf T = renameG (ntIndex G) G := by
+  obtain ⟨ds, _, rfl⟩ := genTables_inv h
+  simp only [gOf, renameG, List.map_map]
+  congr 1
+  apply List.map_congr_left
+  intro r _
+  simp [ruleOf, genProd, stackSyms_map_genSym_general]
+
 end ParolModel
